@@ -20,6 +20,11 @@ thread_local! {
     static ZD: Cell<u32> = const { Cell::new(0) };
 }
 
+/// destructor runs of `Zd` values since the last call
+pub fn zd_take() -> u32 {
+    ZD.with(|z| z.replace(0))
+}
+
 pub trait Elem: 'static + Sized + for<'a> Collect<'a> {
     const NAME: &'static str;
     /// does a destructor run leave a trace we can count?
